@@ -145,6 +145,19 @@ var operators = []map[string]tokType{
 		",":  tokComma,
 	},
 
+	Composer: {
+		"=":  tokEqual,
+		">":  tokGreater,
+		">=": tokGreaterEqual,
+		"<":  tokLess,
+		"<=": tokLessEqual,
+		"^":  tokCaret,
+		"~":  tokTilde,
+		",":  tokComma,
+		"||": tokOr,
+		"-":  tokHyphen,
+	},
+
 	RubyGems: {
 		"=":  tokEqual,
 		">":  tokGreater,
